@@ -414,7 +414,7 @@ func TestVerifC14(t *testing.T) {
 		note     string
 	}
 	systems := []sys{
-		{"open-2scopes", 2, base, false, ev.Pick(r, 3, 5), "all sequences of base-alphabet calls on two adjacent scopes of one DB + reopen, from empty scopes; full read-back compare after every step"},
+		{"open-2scopes", 2, base, false, ev.Pick(r, 3, 4), "all sequences of base-alphabet calls on two adjacent scopes of one DB + reopen, from empty scopes; full read-back compare after every step"},
 		{"open-1scope-deep", 1, base, false, ev.Pick(r, 4, 6), "one scope, deeper"},
 		{"open-2scopes-warm", 2, base, true, ev.Pick(r, 3, 4), "starts after a 4-call preamble on both scopes (entries 1..3, 2 committed+applied, 3 uncommitted) so that overwrite/compaction/install are enabled at depth 1"},
 		{"open-2scopes-warm-wide", 2, wide, true, ev.Pick(r, 2, 3), "warm start; adds partial commit, same-snapshot retry, config-applied mark, snapshot+entries in one save"},
